@@ -61,6 +61,12 @@ def isInitMacro (a : List Nat) : Bool := initNames.any (fun n => cps n == a)
 def inertInit (ts : List Lex.Tok) : Bool :=
   ts.all (fun t => !(t.atBol && t.text == [35]) && !isInitMacro t.text)
 
+/-- the first token of a file is at the beginning of a line for `tokenize`, whatever flag the first pass held for it (the
+    first pass's first token has no `at_bol` when the file starts with a macro that expands to nothing) -/
+def normFirst : List Lex.Tok → List Lex.Tok
+  | [] => []
+  | t :: r => { t with atBol := true } :: r
+
 /-- every code point of every spelling is a Unicode scalar value (what `decode_utf8` of well-formed UTF-8 yields) -/
 def validText (ts : List Lex.Tok) : Bool := ts.all (fun t => t.text.all (fun c => decide (Nat.isValidChar c)))
 
